@@ -1,6 +1,610 @@
-//! Harness for property C08 (stub: not built yet).
+//! C08 — wrapper writes are atomic under crashes; garbage collection is safe.
+//!
+//! Case = a short history (puts in every mode, multipart, copy, rename, delete, legacy pre-0.10
+//! objects, earlier crashes, collect_garbage) followed by `crash <n> <op>`: the op runs on the real
+//! wrapper over `FaultStore(InMemory)` with `crash_after_mutations(n)`, then a *fresh* wrapper is
+//! built over what survived. Every n of every target op is enumerated (one case per n).
+//!
+//! * correspondence: the surviving object set (`dump`, canonical paths), every cold `get` and the
+//!   cold listing, `collect_garbage` (count, object set afterwards, every read again) are diffed
+//!   with the Lean driver (`drv_c08`), whose `crash n op` is `applyPrefix n` of the op's step list;
+//! * oracle (independent of the model; InMemory::fork gives the before- and the clean after-state):
+//!   every key reads, whole, its before-value or its after-value; every listed key is readable in
+//!   full with the listed size; a delete leaves the key whole or absent; every read is identical
+//!   before and after `collect_garbage` (also right after a crash); GC racing real writer tasks
+//!   (measured, not proved).
+#[path = "../../c07/src/sut.rs"]
+mod sut;
+use futures::TryStreamExt;
+use object_store::{ObjectStore, ObjectStoreExt, PutPayload, memory::InMemory, path::Path};
+use std::collections::{BTreeMap, BTreeSet};
+use std::sync::Arc;
+use sut::*;
+use vh_common::serde_json::json;
+use vh_common::*;
+
+const KEYS: [&str; 6] = ["0", "1", "0/1", "0/2", "2/2/2", "3"];
+
+// ------------------------------------------------------------------------------------------
+// helpers
+// ------------------------------------------------------------------------------------------
+
+fn cbor_uint(major: u8, n: u64, out: &mut Vec<u8>) {
+    let m = major << 5;
+    if n < 24 {
+        out.push(m | n as u8);
+    } else if n < 256 {
+        out.push(m | 24);
+        out.push(n as u8);
+    } else if n < 65536 {
+        out.push(m | 25);
+        out.extend_from_slice(&(n as u16).to_be_bytes());
+    } else {
+        out.push(m | 26);
+        out.extend_from_slice(&(n as u32).to_be_bytes());
+    }
+}
+
+/// pre-0.10 MetaStore metadata: `{ "s": size, "e": e_tag, "o": null, "v": null }`
+fn legacy_meta_doc(size: u64, etag: &str) -> Vec<u8> {
+    let mut o = vec![0xa4];
+    o.extend_from_slice(&[0x61, b's']);
+    cbor_uint(0, size, &mut o);
+    o.extend_from_slice(&[0x61, b'e']);
+    cbor_uint(3, etag.len() as u64, &mut o);
+    o.extend_from_slice(etag.as_bytes());
+    o.extend_from_slice(&[0x61, b'o', 0xf6, 0x61, b'v', 0xf6]);
+    o
+}
+
+/// key -> what a cold read returns: (size, data digest, token, time)
+type View = BTreeMap<String, Option<(u64, String, String, i64)>>;
+
+async fn cold_view(fl: Flavor, backend: &InMemory, keys: &[&str]) -> Result<View, String> {
+    let store = build_store(fl, backend.clone());
+    let mut v = View::new();
+    for k in keys {
+        let p = key_path(k).unwrap();
+        match store.get(&p).await {
+            Ok(r) => {
+                let meta = r.meta.clone();
+                match r.bytes().await {
+                    Ok(b) => {
+                        v.insert(k.to_string(), Some((meta.size, show_data(&b), meta.e_tag.unwrap_or_default(), meta.last_modified.timestamp_micros())));
+                    }
+                    Err(e) => return Err(format!("get {k}: body unreadable: {}", err_kind(&e))),
+                }
+            }
+            Err(object_store::Error::NotFound { .. }) => {
+                v.insert(k.to_string(), None);
+            }
+            Err(e) => return Err(format!("get {k}: {}", err_kind(&e))),
+        }
+    }
+    Ok(v)
+}
+
+async fn dump(backend: &InMemory) -> String {
+    let all: Vec<object_store::ObjectMeta> = backend.list(None).try_collect().await.unwrap_or_default();
+    let (mut ms, mut ds, mut gs): (Vec<String>, Vec<String>, BTreeMap<String, usize>) = (vec![], vec![], BTreeMap::new());
+    for m in all {
+        let s = m.location.as_ref().to_string();
+        if let Some(r) = s.strip_prefix("meta/") {
+            ms.push(show_key(&Path::from(r)));
+        } else if let Some(r) = s.strip_prefix("data/") {
+            ds.push(show_key(&Path::from(r)));
+        } else if let Some(r) = s.strip_prefix("gen/") {
+            let (k, _g) = r.rsplit_once('/').unwrap_or((r, ""));
+            *gs.entry(show_key(&Path::from(k))).or_insert(0) += 1;
+        } else {
+            ms.push(format!("?{s}"));
+        }
+    }
+    // same order as the model: segment-wise lexicographic == raw order of the names
+    let sort = |v: &mut Vec<String>| v.sort_by(|a, b| key_path(a).cmp(&key_path(b)));
+    sort(&mut ms);
+    sort(&mut ds);
+    let mut gk: Vec<String> = gs.keys().cloned().collect();
+    sort(&mut gk);
+    format!("ok m=[{}] d=[{}] g=[{}]", ms.join(","), ds.join(","), gk.iter().map(|k| format!("{k}:{}", gs[k])).collect::<Vec<_>>().join(","))
+}
+
+#[derive(Default, Clone)]
+struct Failure {
+    key: String,
+    what: String,
+    expected: String,
+    observed: String,
+    at: usize,
+}
+
+#[derive(Default)]
+struct CaseOut {
+    lines: Vec<String>,
+    failures: Vec<Failure>,
+    hits: Vec<String>,
+    nontrivial: bool,
+}
+
+fn parse_reset(op: &str) -> Option<Flavor> {
+    let w: Vec<&str> = op.split(' ').collect();
+    match w.as_slice() {
+        ["reset", "m"] | ["reset", "m", _] => Some(Flavor::Meta),
+        ["reset", "e"] => Some(Flavor::Enc(16)),
+        ["reset", "e", c] => Some(Flavor::Enc(c.parse().ok()?)),
+        _ => None,
+    }
+}
+
+fn show_view(v: &Option<(u64, String, String, i64)>) -> String {
+    match v {
+        None => "absent".into(),
+        Some((s, d, _, _)) => format!("size={s} data={d}"),
+    }
+}
+
+async fn run_case(ops: &[String]) -> Result<CaseOut, String> {
+    let fl = ops.first().and_then(|o| parse_reset(o)).ok_or("case must start with `reset m|e [chunk]`")?;
+    let mut su = Sut::new(fl);
+    let mut out = CaseOut::default();
+    out.lines.push("ok".into());
+    let mut last_ms = 0i64;
+    let keys: Vec<&str> = KEYS.to_vec();
+    for (i, op) in ops.iter().enumerate().skip(1) {
+        let w: Vec<&str> = op.split(' ').collect();
+        if is_mutating(op) || op == "gc" {
+            last_ms = wait_past(last_ms);
+        }
+        let line = match w.as_slice() {
+            ["reopen"] => {
+                su.reopen();
+                "ok".to_string()
+            }
+            ["dump"] => dump(&su.backend).await,
+            ["legacy", k, size, seed] => {
+                if !matches!(fl, Flavor::Meta) {
+                    return Err("legacy objects are only built for MetaStore".into());
+                }
+                let data = gen_bytes(seed.parse().map_err(|_| "seed")?, size.parse().map_err(|_| "size")?);
+                let p = key_path(k).ok_or("key")?;
+                let etag = format!("legacy-{}", fnv(&data));
+                su.backend.put(&Path::from(format!("data/{p}")), PutPayload::from(data.clone())).await.map_err(|e| e.to_string())?;
+                last_ms = wait_past(chrono::Utc::now().timestamp_millis());
+                su.backend.put(&Path::from(format!("meta/{p}")), PutPayload::from(legacy_meta_doc(data.len() as u64, &etag))).await.map_err(|e| e.to_string())?;
+                out.hits.push("op:legacy".into());
+                // written behind the wrapper's back: only legitimate before the wrapper is opened
+                su.reopen();
+                "ok".to_string()
+            }
+            ["gc"] => {
+                let before = cold_view(fl, &su.backend, &keys).await;
+                let r = su.typed.collect_garbage().await;
+                let after = cold_view(fl, &su.backend, &keys).await;
+                out.hits.push("op:gc".into());
+                if before != after {
+                    out.failures.push(Failure { key: "gc-changed-a-read".into(), what: "a cold read differs before and after collect_garbage".into(), expected: format!("{before:?}"), observed: format!("{after:?}"), at: i });
+                }
+                match r {
+                    Ok(n) => format!("ok {n}"),
+                    Err(e) => err_kind(&e),
+                }
+            }
+            ["crash", n, inner @ ..] => {
+                let n: u64 = n.parse().map_err(|_| "crash n")?;
+                let inner_op = inner.join(" ");
+                // oracle: the before-state and the clean after-state, on forks of the backend
+                let before = cold_view(fl, &su.backend, &keys).await?;
+                let fork = su.backend.fork();
+                let mut clean = Sut::over(fl, fork.clone(), su.toks.clone());
+                let clean_res = clean.exec(&inner_op).await.ok_or_else(|| format!("bad op: {inner_op}"))?;
+                let total = clean.handle.as_ref().map(|h| h.mutation_count()).unwrap_or(0);
+                let after = cold_view(fl, &fork, &keys).await?;
+                // the crash itself, on the real (possibly warm) wrapper
+                let h = su.handle.clone().ok_or("no fault handle")?;
+                h.crash_after_mutations(n);
+                let toks_before = su.toks.clone();
+                let _ = su.exec(&inner_op).await;
+                su.toks = toks_before; // the answer of a crashed call is not observed
+                h.reset();
+                su.reopen();
+                out.hits.push(format!("crash:{}:{}/{}", inner[0], n.min(total), total));
+                if n < total {
+                    out.nontrivial = true;
+                }
+                let _ = clean_res;
+                // 1. every key: before-value or after-value, whole
+                match cold_view(fl, &su.backend, &keys).await {
+                    Err(e) => out.failures.push(Failure { key: format!("crash-unreadable:{}", inner[0]), what: format!("after `{op}` a key that has a commit point cannot be read: {e}"), expected: "every key readable or absent".into(), observed: e, at: i }),
+                    Ok(now) => {
+                        for k in &keys {
+                            let (b, a, v) = (&before[*k], &after[*k], &now[*k]);
+                            let same = |x: &Option<(u64, String, String, i64)>, y: &Option<(u64, String, String, i64)>| match (x, y) {
+                                (None, None) => true,
+                                (Some(x), Some(y)) => x.0 == y.0 && x.1 == y.1,
+                                _ => false,
+                            };
+                            // identical to before (token and time included), or the new value
+                            let is_before = v == b;
+                            let is_after = same(v, a) && (v.is_none() || v.as_ref().map(|x| &x.2) != b.as_ref().map(|x| &x.2) || same(a, b));
+                            if !(is_before || is_after) {
+                                out.failures.push(Failure {
+                                    key: format!("crash-not-old-or-new:{}", inner[0]),
+                                    what: format!("after `{op}` (crash after {n} of {total} backend mutations) key {k} reads neither its value before the call nor the value of the completed call"),
+                                    expected: format!("{} | {}", show_view(b), show_view(a)),
+                                    observed: show_view(v),
+                                    at: i,
+                                });
+                            }
+                            if inner[0] == "del" && inner.get(1) == Some(k) && !(v == b || v.is_none()) {
+                                out.failures.push(Failure { key: "crash-delete-partial".into(), what: format!("after `{op}` the deleted key is neither whole nor absent"), expected: format!("{} | absent", show_view(b)), observed: show_view(v), at: i });
+                            }
+                        }
+                        // 2. listed => readable, with the listed size
+                        let probe = build_store(fl, su.backend.clone());
+                        match probe.list(None).try_collect::<Vec<_>>().await {
+                            Err(e) => out.failures.push(Failure { key: "crash-list-fails".into(), what: format!("after `{op}` a cold listing fails"), expected: "ok".into(), observed: err_kind(&e), at: i }),
+                            Ok(ms) => {
+                                for m in ms {
+                                    let ok = match probe.get(&m.location).await {
+                                        Ok(r) => r.bytes().await.map(|b| b.len() as u64 == m.size).unwrap_or(false),
+                                        Err(_) => false,
+                                    };
+                                    if !ok {
+                                        out.failures.push(Failure { key: "crash-listed-unreadable".into(), what: format!("after `{op}` the listing returns {} which cannot be read in full", show_key(&m.location)), expected: "readable with the listed size".into(), observed: "unreadable / other size".into(), at: i });
+                                    }
+                                }
+                            }
+                        }
+                    }
+                }
+                "crashed".to_string()
+            }
+            _ => {
+                let a = su.exec(op).await.ok_or_else(|| format!("bad op: {op}"))?;
+                out.hits.push(format!("op:{}", w[0]));
+                a.line
+            }
+        };
+        if is_mutating(op) || op == "gc" {
+            last_ms = chrono::Utc::now().timestamp_millis();
+        }
+        out.lines.push(line);
+    }
+    Ok(out)
+}
+
+struct CaseResult {
+    out: Result<CaseOut, String>,
+    panicked: bool,
+    model: Option<Vec<String>>,
+}
+
+fn eval(rt: &tokio::runtime::Runtime, ops: &[String], model: &mut Option<ModelProc>) -> CaseResult {
+    let r = std::panic::catch_unwind(std::panic::AssertUnwindSafe(|| rt.block_on(run_case(ops))));
+    let (out, panicked) = match r {
+        Ok(o) => (o, false),
+        Err(_) => (Err("panic".into()), true),
+    };
+    let model = model.as_mut().map(|m| rank_times(&ops.iter().map(|op| m.ask(op)).collect::<Vec<_>>()));
+    CaseResult { out, panicked, model }
+}
+
+fn first_disagreement(ops: &[String], r: &CaseResult) -> Option<(String, String, String, usize)> {
+    let (Ok(out), Some(m)) = (&r.out, &r.model) else { return None };
+    let lines = rank_times(&out.lines);
+    for i in 0..ops.len().min(lines.len()) {
+        if m[i] != lines[i] {
+            return Some((format!("wrapper model vs wrapper on `{}`", ops[i]), m[i].clone(), lines[i].clone(), i));
+        }
+    }
+    None
+}
+
+// ------------------------------------------------------------------------------------------
+// generator
+// ------------------------------------------------------------------------------------------
+
+fn gen_mutation(rng: &mut Rng, keys: &[&str], c: u64, ntok: &mut u64) -> String {
+    let k = *rng.pick(keys);
+    let k2 = *rng.pick(keys);
+    let size = |rng: &mut Rng| { let r = rng.below(30); *rng.pick(&[0, 1, c.saturating_sub(1), c, c + 1, 2 * c + 1, r]) };
+    match rng.below(100) {
+        0..=34 => {
+            let mode = match rng.below(10) {
+                0..=5 => "ow".to_string(),
+                6..=7 => "cr".to_string(),
+                _ => format!("up:t{}", rng.below(*ntok + 1)),
+            };
+            *ntok += 1;
+            format!("put {k} {mode} {} {}", size(rng), rng.below(50))
+        }
+        35..=46 => {
+            let np = 1 + rng.usize(3);
+            *ntok += 1;
+            format!("mput {k} {} {}", (0..np).map(|_| size(rng).min(40).to_string()).collect::<Vec<_>>().join(","), rng.below(50))
+        }
+        47..=64 => format!("copy {k} {k2} {}", if rng.chance(3, 4) { "ow" } else { "cr" }),
+        65..=82 => format!("ren {k} {k2} {}", if rng.chance(3, 4) { "ow" } else { "cr" }),
+        _ => format!("del {k}"),
+    }
+}
+
+/// base history + one target op; the caller appends `crash n target` for every n
+fn gen_base(rng: &mut Rng) -> (Vec<String>, String, Vec<&'static str>) {
+    let (first, c, meta): (String, u64, bool) = if rng.chance(1, 2) {
+        ("reset m".into(), 8, true)
+    } else {
+        let c = *rng.pick(&[1u64, 7, 16]);
+        (format!("reset e {c}"), c, false)
+    };
+    let mut keys: Vec<&'static str> = KEYS.to_vec();
+    rng.shuffle(&mut keys);
+    keys.truncate(2 + rng.usize(2));
+    let mut ops = vec![first];
+    let mut ntok = 0u64;
+    // most keys start present (otherwise most target ops would have nothing to do)
+    for k in &keys {
+        if rng.chance(3, 4) {
+            ntok += 1;
+            ops.push(format!("put {k} ow {} {}", *rng.pick(&[0, 1, c, c + 1, 2 * c + 1, 5]), rng.below(50)));
+        }
+    }
+    let n = 1 + rng.usize(5);
+    for _ in 0..n {
+        let op = match rng.below(100) {
+            0..=9 if meta => format!("legacy {} {} {}", rng.pick(&keys), rng.below(20), rng.below(50)),
+            10..=15 => "gc".to_string(),
+            16..=20 => "reopen".to_string(),
+            21..=30 => format!("crash {} {}", rng.below(4), gen_mutation(rng, &keys, c, &mut ntok)),
+            31..=36 => {
+                ntok += 1;
+                format!("get {}", rng.pick(&keys))
+            }
+            _ => gen_mutation(rng, &keys, c, &mut ntok),
+        };
+        ops.push(op);
+    }
+    let target = gen_mutation(rng, &keys, c, &mut ntok);
+    (ops, target, keys)
+}
+
+fn observations(keys: &[&str]) -> Vec<String> {
+    let mut v = vec!["dump".to_string()];
+    v.extend(keys.iter().map(|k| format!("get {k}")));
+    v.push("list -".into());
+    v.push("gc".into());
+    v.push("dump".into());
+    v.extend(keys.iter().map(|k| format!("get {k}")));
+    v.push("listd -".into());
+    v
+}
+
+// ------------------------------------------------------------------------------------------
+// GC racing real writer tasks (measured)
+// ------------------------------------------------------------------------------------------
+
+async fn gc_race(fl: Flavor, seed: u64, rounds: u64) -> (u64, u64, Option<String>) {
+    let su = Arc::new(Sut::new(fl));
+    let keys = ["0", "1", "0/1"];
+    let (mut gcs, mut writes) = (0u64, 0u64);
+    for k in keys {
+        su.store.put(&key_path(k).unwrap(), PutPayload::from(gen_bytes(1, 20))).await.ok();
+    }
+    for r in 0..rounds {
+        let mut hs = vec![];
+        for t in 0..3u64 {
+            let s = su.store.clone();
+            hs.push(tokio::spawn(async move {
+                let mut n = 0u64;
+                for j in 0..6u64 {
+                    let k = key_path(["0", "1", "0/1"][((t + j + seed) % 3) as usize]).unwrap();
+                    let k2 = key_path(["0", "1", "0/1"][((t + 2 * j + seed + 1) % 3) as usize]).unwrap();
+                    let ok = match (t + j) % 3 {
+                        0 => s.put(&k, PutPayload::from(gen_bytes(seed + r * 31 + t * 7 + j, 10 + (j as usize) * 3))).await.is_ok(),
+                        1 => s.copy(&k, &k2).await.is_ok(),
+                        _ => {
+                            let mut up = match s.put_multipart(&k).await { Ok(u) => u, Err(_) => continue };
+                            up.put_part(PutPayload::from(gen_bytes(seed + j, 9))).await.ok();
+                            tokio::task::yield_now().await;
+                            up.complete().await.is_ok()
+                        }
+                    };
+                    if ok { n += 1; }
+                    tokio::task::yield_now().await;
+                }
+                n
+            }));
+        }
+        let ty = su.typed.clone();
+        let g = tokio::spawn(async move {
+            let mut n = 0;
+            for _ in 0..4 {
+                if ty.collect_garbage().await.is_ok() { n += 1; }
+                tokio::task::yield_now().await;
+            }
+            n
+        });
+        for h in hs {
+            writes += h.await.unwrap_or(0);
+        }
+        gcs += g.await.unwrap_or(0);
+        // Referenced ⊆ Present: every key with a commit point reads in full, cold
+        let probe = build_store(fl, su.backend.clone());
+        let listed: Vec<object_store::ObjectMeta> = match probe.list(None).try_collect().await { Ok(v) => v, Err(e) => return (gcs, writes, Some(format!("list: {}", err_kind(&e)))) };
+        for m in listed {
+            match probe.get(&m.location).await {
+                Ok(r) => match r.bytes().await {
+                    Ok(b) if b.len() as u64 == m.size => {}
+                    Ok(b) => return (gcs, writes, Some(format!("{}: {} bytes, listed {}", m.location, b.len(), m.size))),
+                    Err(e) => return (gcs, writes, Some(format!("{}: body {}", m.location, err_kind(&e)))),
+                },
+                Err(e) => return (gcs, writes, Some(format!("{}: {}", m.location, err_kind(&e)))),
+            }
+        }
+    }
+    (gcs, writes, None)
+}
+
 fn main() {
-    let a = vh_common::Args::parse();
-    let r = vh_common::Report::new("C08", &a, "stub");
-    r.write(&a);
+    let args = Args::parse();
+    let mut rep = Report::new(
+        "C08",
+        &args,
+        "case = history of 2..6 operations (put ow/cr/update, multipart, copy, rename, delete, legacy object, gc, reopen, earlier crash) \
+         + `crash n <op>` for one n (every n in 0..=6 of every target op is its own case) + cold dump/get/list, gc, dump/get/list again; \
+         distinct = distinct op list; non-trivial = the crash cut the target op before its last backend mutation",
+    );
+    let search = args.focus.is_some();
+    let mut cases: Vec<(String, Vec<String>)> = vec![];
+    if let Some(p) = &args.replay {
+        cases.push(("replay".into(), read_replay(p)));
+    } else {
+        if let Some(dir) = &args.corpus {
+            cases.extend(read_corpus(dir));
+        }
+        let nbase = args.budget(260, 36000);
+        for i in 0..nbase {
+            let mut rng = Rng::for_case(args.seed, i);
+            let (base, target, keys) = gen_base(&mut rng);
+            for n in 0..=6u64 {
+                let mut ops = base.clone();
+                ops.push(format!("crash {n} {target}"));
+                ops.extend(observations(&keys));
+                cases.push((format!("gen{i}.{n}"), ops));
+            }
+        }
+    }
+    let ncorpus = cases.iter().filter(|c| !c.0.starts_with("gen")).count();
+    let nthreads = std::thread::available_parallelism().map(|n| n.get()).unwrap_or(4).min(16).min(cases.len().max(1));
+    let results: Vec<CaseResult> = {
+        let mut slots: Vec<Option<CaseResult>> = (0..cases.len()).map(|_| None).collect();
+        let chunks: Vec<Vec<usize>> = (0..nthreads).map(|t| (t..cases.len()).step_by(nthreads).collect()).collect();
+        let outs: Vec<Vec<(usize, CaseResult)>> = std::thread::scope(|s| {
+            let hs: Vec<_> = chunks
+                .iter()
+                .map(|idxs| {
+                    let cases = &cases;
+                    let args = &args;
+                    s.spawn(move || {
+                        let rt = tokio::runtime::Builder::new_current_thread().enable_all().build().unwrap();
+                        let mut model = if search { None } else { ModelProc::from_args(args) };
+                        idxs.iter().map(|&i| (i, eval(&rt, &cases[i].1, &mut model))).collect::<Vec<_>>()
+                    })
+                })
+                .collect();
+            hs.into_iter().map(|h| h.join().expect("worker")).collect()
+        });
+        for v in outs {
+            for (i, r) in v {
+                slots[i] = Some(r);
+            }
+        }
+        slots.into_iter().map(|s| s.unwrap()).collect()
+    };
+
+    let rt = tokio::runtime::Builder::new_current_thread().enable_all().build().unwrap();
+    let mut model = if search { None } else { ModelProc::from_args(&args) };
+    let mut reported: BTreeSet<String> = BTreeSet::new();
+    let mut shrunk = 0;
+    for ((name, ops), r) in cases.iter().zip(results.iter()) {
+        if r.panicked {
+            rep.oracle_failure("panic", "the implementation panicked", ops, "no panic", "panic");
+            rep.case(&ops.join("|"), false);
+            continue;
+        }
+        let out = match &r.out {
+            Ok(o) => o,
+            Err(e) => {
+                // a key with a commit point that cannot be read cold is the property failing, not a harness error
+                if e.starts_with("get ") {
+                    if reported.insert("unreadable-key".into()) {
+                        rep.oracle_failure("unreadable-key", &format!("a key with a commit point cannot be read by a fresh wrapper: {e}"), ops, "readable or absent", e);
+                    }
+                } else {
+                    rep.hit("case_error");
+                    rep.notes.push(format!("case {name} could not run: {e}"));
+                }
+                continue;
+            }
+        };
+        for h in &out.hits {
+            rep.hit(h);
+        }
+        rep.case(&ops.join("|"), out.nontrivial);
+        if out.nontrivial && rep.samples.len() < 4 {
+            rep.sample(json!({"case": name, "ops": ops, "wrapper": rank_times(&out.lines)}));
+        }
+        for f in &out.failures {
+            if !reported.insert(f.key.clone()) {
+                rep.hit(&format!("failure-again:{}", f.key));
+                continue;
+            }
+            let prefix: Vec<String> = ops[..=f.at.min(ops.len() - 1)].to_vec();
+            let key = f.key.clone();
+            let last = prefix.last().unwrap().clone();
+            // shrink the history before the failing op (the failing op itself stays)
+            let small = shrink(
+                prefix[1..prefix.len() - 1].to_vec(),
+                |cand| {
+                    let mut c = vec![prefix[0].clone()];
+                    c.extend_from_slice(cand);
+                    c.push(last.clone());
+                    eval(&rt, &c, &mut None).out.as_ref().is_ok_and(|o| o.failures.iter().any(|g| g.key == key))
+                },
+                120,
+            );
+            let mut c = vec![prefix[0].clone()];
+            c.extend(small);
+            c.push(last.clone());
+            let r2 = eval(&rt, &c, &mut None);
+            let f2 = r2.out.as_ref().ok().and_then(|o| o.failures.iter().find(|g| g.key == f.key).cloned()).unwrap_or_else(|| f.clone());
+            rep.oracle_failure(&f.key, &f2.what, &c, &f2.expected, &f2.observed);
+        }
+        if r.model.is_some() {
+            rep.model_compared += ops.len() as u64 - 1;
+            if let Some((what, m, im, at)) = first_disagreement(ops, r) {
+                if shrunk < 3 && model.is_some() {
+                    shrunk += 1;
+                    let prefix: Vec<String> = ops[..=at].to_vec();
+                    let small = shrink(
+                        prefix[1..].to_vec(),
+                        |cand| {
+                            let mut c = vec![prefix[0].clone()];
+                            c.extend_from_slice(cand);
+                            let r = eval(&rt, &c, &mut model);
+                            first_disagreement(&c, &r).is_some()
+                        },
+                        120,
+                    );
+                    let mut c = vec![prefix[0].clone()];
+                    c.extend(small);
+                    let r2 = eval(&rt, &c, &mut model);
+                    match first_disagreement(&c, &r2) {
+                        Some((what, m, im, _)) => rep.disagreement(&what, &c, &m, &im),
+                        None => rep.disagreement(&what, ops, &m, &im),
+                    }
+                } else {
+                    rep.disagreement(&what, ops, &m, &im);
+                }
+            }
+        }
+    }
+
+    // GC racing real writer tasks on a multi-thread runtime: measured only
+    if args.replay.is_none() {
+        let mt = tokio::runtime::Builder::new_multi_thread().worker_threads(4).enable_all().build().unwrap();
+        let rounds = args.budget(40, 4000);
+        let (mut gcs, mut writes) = (0, 0);
+        for (j, fl) in [Flavor::Meta, Flavor::Enc(7)].iter().enumerate() {
+            let (g, w, bad) = mt.block_on(gc_race(*fl, args.seed + j as u64, rounds));
+            gcs += g;
+            writes += w;
+            if let Some(b) = bad {
+                rep.oracle_failure("gc-race-lost-payload", "after collect_garbage ran concurrently with in-process writers a committed key cannot be read in full", &[format!("gc_race flavor={fl:?} seed={} rounds={rounds}", args.seed + j as u64)], "every committed key readable", &b);
+            }
+        }
+        rep.measured.insert("gc_race".into(), json!({"collections": gcs, "successful_writer_calls": writes, "what": "collect_garbage x4 per round racing 3 writer tasks (put / copy / multipart) on a 4-thread runtime; after each round every committed key read cold in full. Real scheduling, not enumerated: measured, not proved."}));
+    }
+    rep.notes.push(format!("{ncorpus} corpus case(s) run first; {} worker threads", nthreads));
+    rep.write(&args);
 }
